@@ -36,6 +36,7 @@ class GNode:
     fn: Optional[str] = None  # shared function name (reuse); default: own function n<i>
     consts: tuple = ()  # constant positional arguments (after the 'pos' edges)
     unpack: Optional[int] = None
+    retnone: bool = False  # the node function returns None (a legal result: executed for its side effect)
 
 
 @dataclass(frozen=True)
@@ -163,6 +164,10 @@ class GProg:
                 return v
             st = out[e.src]
             if st[0] in ("run", "pre"):
+                if self.nodes[e.src].retnone:
+                    if e.path:
+                        raise _RefError(e.src)
+                    return None
                 _, i_d, ser, _p = st[1]
                 return ("tok", i_d, ser, tuple(e.path))
             if st[0] in ("deact", "error") and e.path:
@@ -261,7 +266,7 @@ class GProg:
             "nodes": [
                 {"edges": [[e.src, e.kind, list(e.path)] for e in n.edges], "res": n.res, "seq": n.seq, "prio": n.prio,
                  "setup": n.setup, "debug": n.debug, "fail": n.fail, "tag": n.tag,
-                 "const_flag": n.const_flag, "fn": n.fn, "consts": list(n.consts), "unpack": n.unpack}
+                 "const_flag": n.const_flag, "fn": n.fn, "consts": list(n.consts), "unpack": n.unpack, "retnone": n.retnone}
                 for n in self.nodes
             ],
             "mc": self.mc, "is_async": self.is_async, "params": [list(p) for p in self.params],
@@ -276,7 +281,7 @@ class GProg:
         nodes = tuple(
             GNode(edges=tuple(Edge(e[0], e[1], tup(e[2])) for e in n["edges"]), res=n["res"], seq=n["seq"], prio=n["prio"],
                   setup=n["setup"], debug=n["debug"], fail=n["fail"], tag=tup(n["tag"]), const_flag=tup(n["const_flag"]),
-                  fn=n["fn"], consts=tup(n["consts"]), unpack=n["unpack"])
+                  fn=n["fn"], consts=tup(n["consts"]), unpack=n["unpack"], retnone=n.get("retnone", False))
             for n in d["nodes"]
         )
         return GProg(nodes=nodes, mc=d["mc"], is_async=d["is_async"], params=tuple((p[0], tup(p[1])) for p in d["params"]),
